@@ -484,6 +484,11 @@ pub fn linearise(t: &mut Tape, tree: &Tree, seq: bool, started_first: bool) -> V
 
 /// Like [`linearise`], with an arbitrary chooser (`n` alternatives -> index), used for exhaustive enumeration.
 pub fn linearise_with(pick: &mut dyn FnMut(usize) -> usize, tree: &Tree, seq: bool, started_first: bool) -> Vec<Ev> {
+    linearise_full(pick, tree, seq, started_first, false)
+}
+
+/// `seq_parser_first`: parser errors and ParsingFinished directly follow run-Started.
+pub fn linearise_full(pick: &mut dyn FnMut(usize) -> usize, tree: &Tree, seq: bool, started_first: bool, seq_parser_first: bool) -> Vec<Ev> {
     struct ScSt {
         a: usize,
         e: usize,
@@ -531,6 +536,11 @@ pub fn linearise_with(pick: &mut dyn FnMut(usize) -> usize, tree: &Tree, seq: bo
             acts.push(Act::Err(errs_done));
         } else if !pf_done {
             acts.push(Act::PF);
+        }
+        // `started_first` also pins the parser items right behind run-Started (they are forwarded at
+        // once and do not interact with the queues): keeps exhaustive enumeration small.
+        if started_first && run_started && seq_parser_first && (errs_done < tree.errors.len() || !pf_done) {
+            acts.retain(|a| matches!(a, Act::Err(_) | Act::PF));
         }
         if run_started || !started_first {
             // feature events need run Started first
